@@ -194,17 +194,18 @@ Section Gen.
   Definition draw_sample (ds : list sdim) (n : nat) (global : G) (rs : random_state) : list (list T) :=
     fst (fst (draw_full ds n global rs)).
 
-  (* MultivariateModel.marginal_icdf: exact for an unconditional variable, else the numpy.quantile of
-     a Monte-Carlo sample drawn with random_state=None; mc_size = max(int(100*pf/min(p, 1-p)), 100000) *)
+  (* MultivariateModel.marginal_icdf(p, dim, precision_factor, random_state): exact for an unconditional variable,
+     else the numpy.quantile of column dim of a Monte-Carlo sample drawn with the caller's random_state;
+     mc_size = max(int(100*precision_factor/min(p_min, 1-p_max)), 100000) (binary64 instance: fmc_size below) *)
   Variable quantile : list T -> list T -> list T.
   Definition marginal_icdf (ds : list dim) (sds : list sdim) (ps : list T) (dimi : nat) (mc_size : nat) (global : G)
-    : option (list T) :=
+             (rs : random_state) : option (list T) :=
     match nth_error ds dimi with
     | None => None
     | Some d =>
         match cond d with
         | None => Some (map (fun p => dicdf d p None) ps)
-        | Some _ => Some (quantile (map (fun row => nth dimi row zero) (draw_sample sds mc_size global RSNone)) ps)
+        | Some _ => Some (quantile (map (fun row => nth dimi row zero) (draw_sample sds mc_size global rs)) ps)
         end
     end.
 End Gen.
@@ -299,6 +300,11 @@ Definition fsdim (c : option nat) (ownp : list float) (tt : thetatab) (rt : rvst
          (fun ps g => rvs_look rt g O ps).
 Definition fseed_state (seeds : list (Z * nat)) (s : Z) : nat :=
   (fix look (l : list (Z * nat)) := match l with [] => O | (a, g) :: l' => if Z.eqb a s then g else look l' end) seeds.
+(* the Monte-Carlo sample size of marginal_icdf: n = int((1 / p_small) * (100 * precision_factor)); max(n, 100000) *)
+Definition fmc_size (ps : list float) (pf : float) : option Z :=
+  let p_small := let a := fmin ps in let b := 1 - fmax ps in if PrimFloat.ltb b a then b else a in
+  match truncZ ((1 / p_small) * (100 * pf)) with Some n => Some (Z.max n 100000) | None => None end.
+
 Definition fdraw_full (seeds : list (Z * nat)) (ds : list (sdim float nat (list float))) (n : nat) (global : nat)
            (rs : random_state nat) :=
   draw_full float 0 nat (list float) (fseed_state seeds) ds n global rs.
